@@ -728,7 +728,7 @@ def xcanon(v, py2file):
         return ["t", hx(raw)]
     t = type(v)
     if isinstance(v, x.cross_types.LongTypeForPython3):
-        return ["i", str(int(v)), "L"] if py2file else ["i", str(int(v))]
+        return ["i", str(int(v)), "L"]      # the Python-2 long kind: wrong for a Python 3 file, whatever the value
     if t is int:
         return ["i", str(int(v))]
     if t is float:
